@@ -225,8 +225,13 @@ async def _visible(loop, case, out: Outcome):
     try:
         for _ in range(case["others"] + 1):
             k, _, _ = await asyncio.wait_for(nc.consume(), timeout=0.6)
-            seen.append(k.id_)
+            if k.id_ != "d0" or loop.time() < due - RES:
+                seen.append(k.id_)
             await b.ack(k)
+            if k.id_ == "d0" and "d0" not in seen:
+                out.inconclusive = True  # it simply became due while we were looking
+                await nc.finish()
+                return
     except asyncio.TimeoutError:
         pass
     await nc.finish()
